@@ -263,6 +263,7 @@ def check(P, R, tier):
     R.floor("RF2-add", "decoded (start, count) points of the business-day adders", nad, 150000)
     import bizdecode
     nbz = bizdecode.run_parallel(R, tu, "RF2-biz", jobs=14)
+    nbz += bizdecode.run_history(R, tu, "RF2-biz-hist")
     R.floor("RF2-biz", "decoded getters / conversions / additions of business-day dates", nbz, 30000)
     import fresh
     nfr = fresh.check_unit(R, tu, "RF-fresh", only_file="bizda.c")
